@@ -537,3 +537,32 @@ pub fn episode_profile(batch: u64) -> Option<u32> {
         _ => None,
     }
 }
+
+// ------------------------------------------------------------ host logger
+
+struct NoopLogger;
+impl log::Log for NoopLogger {
+    fn enabled(&self, _m: &log::Metadata) -> bool {
+        true
+    }
+    fn log(&self, _r: &log::Record) {}
+    fn flush(&self) {}
+}
+static NOOP_LOGGER: NoopLogger = NoopLogger;
+
+/// The embedding application's logging configuration is ambient state too: the
+/// library uses the `log` facade, and what it returns must not depend on
+/// whether (and at which level) the host listens. Chosen per worker process.
+pub fn install_host_logger(variant: u64) -> &'static str {
+    let (level, name) = match variant % 5 {
+        0 | 1 => (log::LevelFilter::Off, "off"),
+        2 => (log::LevelFilter::Error, "error"),
+        3 => (log::LevelFilter::Debug, "debug"),
+        _ => (log::LevelFilter::Trace, "trace"),
+    };
+    if level != log::LevelFilter::Off {
+        let _ = log::set_logger(&NOOP_LOGGER);
+    }
+    log::set_max_level(level);
+    name
+}
